@@ -36,6 +36,35 @@ CHECKS = {
    technique="TLA+ model checking (TLC) with an attacker action + trace validation of real Tcb executions under forged segments"),
 }
 
+FN_NOTE = "Trusted base: TLC, the hand-written specification and trace specification, the harness projection. The model is exhaustive for the scaled domain only; the real code is driven by seeded sampling (dense grid where stated)."
+CHECKS.update({
+ "C07": dict(level="model_checking", ref="DESIGN.md 7 C07",
+   text="Message.tla: message.rs transcribed at chunk-window level (push_front / append / slice / cut / remove_front arithmetic) and checked by TLC to refine "
+        "plain byte strings for every operation sequence of the bounded pool (incl. aliasing via clone/cut/concatenate); random histories on the real Message "
+        "with every observable (len, iter, to_vec, Display, ==) of every pool member validated by TraceMessage.tla after each operation.",
+   note=FN_NOTE, technique="TLA+ refinement check (TLC) + trace validation of real Message histories"),
+ "C09": dict(level="model_checking", ref="DESIGN.md 7 C09",
+   text="IpTable.tla: the code's mask-and-compare / ordered first-match lookup / range-to-network trick transcribed and checked by TLC against the definitions "
+        "(longest-prefix match, id..broadcast membership, range intersection, aligned power-of-two blocks) for every table, network pair and address of the model "
+        "width; the real IpTable / Ipv4Net / cidr_to_ip on 32-bit values (all mask lengths, boundary addresses) validated by TraceIpTable.tla on byte tuples.",
+   note=FN_NOTE, technique="TLA+ model checking (TLC) + trace validation of real IpTable/Ipv4Net calls"),
+ "C10": dict(level="model_checking", ref="DESIGN.md 7 C10",
+   text="Frag.tla: RFC 791 fragmentation as a function; TLC checks the partition predicate for every original (offset, length 0..72, MF), DF and chain of <= 3 decreasing "
+        "MTUs of the scaled domain (467k cases, complete); the real fragment() on a dense grid payload 0..600 x MTU 68..130 x DF/MF x chains plus 64 KiB cases, every "
+        "returned piece compared with the specification and the partition predicate by TraceFrag.tla (payload bytes position-coded).",
+   note=FN_NOTE, technique="TLA+ model checking (TLC) + trace validation of real fragment() calls"),
+ "C11": dict(level="model_checking", ref="DESIGN.md 7 C11",
+   text="Reasm.tla: receive_packet / maybe_cull_segment transcribed; TLC explores every arrival order of the pieces of two datagrams through two fragmentation chains with "
+        "duplicates and every expiry-callback timing (complete-iff-covered, exact bytes, no leak); the real Reassembly under random interleavings, duplicates, overlapping "
+        "chains and expiry callbacks validated by the property-level TraceReasm.tla.",
+   note=FN_NOTE + " Known finding K5 (epoch reuse across buffers) is reported as KNOWN-FINDING.", technique="TLA+ model checking (TLC) + trace validation of real Reassembly executions"),
+ "C15": dict(level="model_checking", ref="DESIGN.md 7 C15",
+   text="IpGen.tla: the range-set algorithm of ip_generator.rs transcribed; TLC checks in-pool / disjointness / exact free set / real exhaustion for every history of fetch, "
+        "return and block over all pools of a 3-bit space; the real IpGenerator under random histories in 64-address windows at 0.0.0.0, 255.255.255.192 and other bases "
+        "validated by TraceIpGen.tla; DHCP leases: full-stack DHCP runs validated by TraceDhcp.tla (see level_note).",
+   note=FN_NOTE, technique="TLA+ model checking (TLC) + trace validation of real IpGenerator histories"),
+})
+
 NOT_APPLICABLE = {}
 PENDING = ["C02", "C04", "C05", "C06", "C07", "C08", "C09", "C10", "C11", "C13", "C14", "C15", "C16", "C18", "C19", "C20"]
 
